@@ -255,6 +255,39 @@ func c13(c *Ctx) {
 					}
 				}
 			}
+			if !okRange && nextEl != nil {
+				// index form: for i := 1; i < len(nodes); i++ { ... nodes[i] ... }
+				if ia, ok := nextEl.(*ssa.IndexAddr); ok {
+					if ph, ok := ia.Index.(*ssa.Phi); ok && derivesFromParam(ia.X, proofP) {
+						start1, step1 := false, false
+						for _, e := range ph.Edges {
+							if k, isC := core.ConstInt(e); isC {
+								start1 = k == 1
+								continue
+							}
+							if bo, ok := e.(*ssa.BinOp); ok && bo.Op == token.ADD && bo.X == ssa.Value(ph) {
+								if k, isC := core.ConstInt(bo.Y); isC && k == 1 {
+									step1 = true
+								}
+							}
+						}
+						bound := false
+						for _, b := range W.Blocks {
+							for i := range b.Succs {
+								for _, f := range core.EdgeFacts(b, i) {
+									core.CmpFact(f, func(op token.Token, x, y ssa.Value) bool {
+										if op == token.LSS && x == ssa.Value(ph) && core.IsLenOf(y, func(v ssa.Value) bool { return core.SameValue(v, ia.X) || derivesFromParam(v, proofP) }) {
+											bound = true
+										}
+										return false
+									})
+								}
+							}
+						}
+						okRange = start1 && step1 && bound
+					}
+				}
+			}
 			r.Check(okRange, "R1.hash-link", wn+" walks-all-following", p.Pos(W.Pos()), "iterates over every element after the first", "the walk does not cover every proof element after the first")
 		}
 	}
@@ -377,7 +410,10 @@ func c13(c *Ctx) {
 		// bytecode: code hash comparison
 		if len(proofCalls) == 1 && core.StaticCalleeFn(first) != W && core.StaticCalleeFn(first).Signature.Results().Len() == 2 {
 			g := bytesEqualFact(func(v ssa.Value) bool {
-				return core.Derives(v, func(x ssa.Value) bool { _, f, base, ok := core.FieldRef(x); return ok && f == "CodeHash" && core.ResultOf(base, first, 0) }, core.DeriveOpts{})
+				return core.Derives(v, func(x ssa.Value) bool {
+					_, f, base, ok := core.FieldRef(x)
+					return ok && f == "CodeHash" && core.ResultOf(base, first, 0)
+				}, core.DeriveOpts{})
 			}, func(v ssa.Value) bool {
 				return core.Derives(v, func(x ssa.Value) bool { _, f, _, ok := core.FieldRef(x); return ok && f == "CodeHash" }, core.DeriveOpts{}) && derivesFromParam(v, keyP)
 			})
@@ -630,7 +666,10 @@ func c13(c *Ctx) {
 						return false
 					}
 					isPathAt := func(v ssa.Value) bool {
-						return core.Derives(v, func(x ssa.Value) bool { ia, ok := x.(*ssa.IndexAddr); return ok && ia.X == ssa.Value(pathT) && isInductionVar(ia.Index) }, core.DeriveOpts{})
+						return core.Derives(v, func(x ssa.Value) bool {
+							ia, ok := x.(*ssa.IndexAddr)
+							return ok && ia.X == ssa.Value(pathT) && isInductionVar(ia.Index)
+						}, core.DeriveOpts{})
 					}
 					isKeyAt := func(v ssa.Value) bool {
 						return core.Derives(v, func(x ssa.Value) bool {
